@@ -1869,9 +1869,20 @@ double Analyser::AnalyserImpl::powerValue(const AnalyserEquationAstPtr &ast,
             return NAN;
         }
 
+        // Note: the initial value may be the name of a variable rather than
+        //       a number, in which case we don't have a value to work with.
+
+        double initialValueAsDouble;
+
+        if (!convertToDouble(initialValue, initialValueAsDouble)) {
+            powerData.mExponentValueAvailable = false;
+
+            return NAN;
+        }
+
         powerData.mExponentValueChangeable = true;
 
-        return std::stod(initialValue);
+        return initialValueAsDouble;
     }
     case AnalyserEquationAst::Type::CN:
         return std::stod(ast->value());
